@@ -229,7 +229,8 @@ func (c *ChunkComposer) RunLoop(reader io.Reader, cb OnCompleteMessage) error {
 					stream.msg.Skip(3)
 					aggregateStream.timestamp += uint32(stream.msg.buff.Bytes()[0]) << 24
 					stream.msg.Skip(1)
-					aggregateStream.header.MsgStreamId = int(bele.BeUint24(stream.msg.buff.Bytes()))
+					// 子消息头中的stream id（flv tag格式，通常为0）被aggregate消息自身的message stream id覆盖，见rtmp规范对Aggregate Message的描述
+					aggregateStream.header.MsgStreamId = stream.header.MsgStreamId
 					stream.msg.Skip(3)
 
 					// 计算时间戳
